@@ -53,6 +53,8 @@ structure Codec (K : Type) where
   divOk : K → K → Bool
   /-- `<` for the ordered scalar types (int, double), `none` for complex numbers and the prime field -/
   lt : Option (K → K → Bool)
+  /-- is the field type different from its real type (selects the overload of the scalar `dot`)? -/
+  cplx : Bool
 
 def small (x : Int) : Bool := -100000 ≤ x && x ≤ 100000
 
@@ -63,6 +65,7 @@ def intCodec : Codec Int where
   conj := id
   divOk := fun a k => k != 0 && a % k == 0
   lt := some fun a b => decide (a < b)
+  cplx := false
 
 /-- see `smithExact` in the harness -/
 def smithExact (c d : Int) : Bool :=
@@ -81,6 +84,7 @@ def gintCodec : Codec GInt where
     let den := k.re * k.re + k.im * k.im
     den != 0 && smithExact k.re k.im && (a.re * k.re + a.im * k.im) % den == 0 && (a.im * k.re - a.re * k.im) % den == 0
   lt := none
+  cplx := true
 
 def fpCodec : Codec Fp where
   w := 1
@@ -89,6 +93,7 @@ def fpCodec : Codec Fp where
   conj := id
   divOk := fun _ k => k.v != 0
   lt := none
+  cplx := false
 
 /-! ### parsing -/
 
@@ -286,7 +291,10 @@ def handleMulInPlace (F : Codec K) (op : String) (toks : List String) : String :
       if m.rows != m.cols || m.cols != a.rows then "bad-op" else showMat F (leftmultiply a m)
     | "rightmultiply" =>
       if m.rows != m.cols || m.rows != a.cols then "bad-op"
-      else showMat F (if fm11 then rightmultiply11 a m else rightmultiply a m)
+      -- FieldMatrix<K,1,1> has its own rightmultiply(FieldMatrix<K,1,1>) (a 1x1 DynamicMatrix / scalar view converts to it
+      -- through DenseMatrixAssigner); FieldMatrix has an overload for FieldMatrix arguments; otherwise DenseMatrix
+      else showMat F (if fm11 then rightmultiply11 a m
+                      else if A.base == "FM" && M.base == "FM" then rightmultiplyFM a m else rightmultiply a m)
     | "leftmultiplyany" =>
       if A.base != "FM" || M.base != "FM" || m.cols != a.rows then "bad-op"
       else showMat F (if fm11 then leftmultiplyany11 a m else leftmultiplyany a m)
@@ -294,7 +302,8 @@ def handleMulInPlace (F : Codec K) (op : String) (toks : List String) : String :
       if A.base != "FM" || M.base != "FM" || m.rows != a.cols then "bad-op"
       else showMat F (if fm11 then rightmultiplyany11 a m else rightmultiplyany a m)
     | "multmatrix" =>
-      if A.base != "FM" || M.base != "FM" || m.rows != a.cols then "bad-op" else showMat F (matmul a m)
+      if A.base != "FM" || M.base != "FM" || m.rows != a.cols then "bad-op"
+      else showMat F (multMatrix a m (zeroMat a.rows m.cols))
     | _ => "bad-op"
 
 def handleUnaryMat (F : Codec K) (op : String) (toks : List String) : String :=
@@ -307,11 +316,12 @@ def handleUnaryMat (F : Codec K) (op : String) (toks : List String) : String :=
     | "transposed" =>
       let rep := operandRep A
       match rep with
-      | .full m => showMat F (transposed m)
+      | .full m => showMat F (if A.base == "DM" then transposedDyn m else transposed m)
       | .transposed r => showMat F (transposeMat (Rep.toFull (.transposed r)))   -- asDense() of the view, transposed back
       | r => showMat F r.transposedFull
     | "multtm" =>
-      if A.base != "FM" || A.tv || A.tc then "bad-op" else showMat F (multTransposedMatrix (storedFull A))
+      if A.base != "FM" || A.tv || A.tc then "bad-op"
+      else showMat F (multTransposedMatrix (storedFull A) (zeroMat A.c A.c))
     | _ => "bad-op"
 
 def allDivOk (F : Codec K) (l : List K) (k : K) : Bool := l.all fun a => F.divOk a k
@@ -339,29 +349,29 @@ def handleMatVS (F : Codec K) (op : String) (toks : List String) : String :=
       if B.tv || B.tc || B.t2 || A.r != B.r || A.c != B.c || (diag != (B.base == "DG")) then "bad-op" else
       let b := storedFull B
       -- DiagonalMatrix works on its diagonal vector
-      let dres (f : (Nat → K) → (Nat → K) → Nat → K) : String :=
-        showMat F (Rep.toFull (.diag A.r (f (vecFn A.e) (vecFn B.e))))
+      let dres (f : Vec K → (Nat → K) → Vec K) : String :=
+        showMat F (Rep.toFull (.diag A.r (f ⟨A.r, vecFn A.e⟩ (vecFn B.e)).get))
       match op with
-      | "madd" => if diag then dres vadd else showMat F (madd a b)
-      | "msub" => if diag then dres vsub else showMat F (msub a b)
-      | "mplus" => if isFM A && isFM B then showMat F (madd a b) else "bad-op"
-      | "mminus" => if isFM A && isFM B then showMat F (msub a b) else "bad-op"
+      | "madd" => if diag then dres vPlusAssign else showMat F (madd a b)
+      | "msub" => if diag then dres vMinusAssign else showMat F (msub a b)
+      | "mplus" => if isFM A && isFM B then showMat F (mplus a b) else "bad-op"
+      | "mminus" => if isFM A && isFM B then showMat F (mminus a b) else "bad-op"
       | "maxpy" => if diag then "bad-op" else showMat F (maxpy a s b)
       | "meq" => showB (if diag then veq A.r (vecFn A.e) (vecFn B.e) else meq a b)
       | "mne" => showB (!(if diag then veq A.r (vecFn A.e) (vecFn B.e) else meq a b))
       | _ => "bad-op"
     | none =>
-      let dres (f : (Nat → K) → K → Nat → K) : String :=
-        showMat F (Rep.toFull (.diag A.r (f (vecFn A.e) s)))
+      let dres (f : Vec K → K → Vec K) : String :=
+        showMat F (Rep.toFull (.diag A.r (f ⟨A.r, vecFn A.e⟩ s).get))
       match op with
-      | "mscale" => if diag then dres vscale else showMat F (mscale a s)
+      | "mscale" => if diag then dres vTimesAssign else showMat F (mscale a s)
       | "mdiv" =>
         if !allDivOk F A.e s then "inexact"
-        else if diag then dres vdiv else showMat F (mdiv a s)
-      | "mtimes" => if isFM A then showMat F (mscale a s) else "bad-op"
-      | "mltimes" => if isFM A then showMat F (mscaleL s a) else "bad-op"
+        else if diag then dres vDivAssign else showMat F (mdiv a s)
+      | "mtimes" => if isFM A then showMat F (mtimes a s) else "bad-op"
+      | "mltimes" => if isFM A then showMat F (mltimes s a) else "bad-op"
       | "mover" =>
-        if !isFM A then "bad-op" else if !allDivOk F A.e s then "inexact" else showMat F (mdiv a s)
+        if !isFM A then "bad-op" else if !allDivOk F A.e s then "inexact" else showMat F (mover a s)
       | "mneg" => if diag || A.base == "SV" then "bad-op" else showMat F (mneg a)
       | _ => "bad-op"
 
@@ -370,14 +380,8 @@ def ordVS : List String := ["v1_lt_s", "v1_le_s", "v1_gt_s", "v1_ge_s", "s_lt_v1
 def twoVecOps : List String :=
   ["vadd", "vsub", "vplus", "vminus", "vaxpy", "veq", "vne", "vdotT", "vdot", "fdot", "fdotT"] ++ ordVV
 
-/-- the four order relations in terms of `<` -/
-def ordRel (lt : K → K → Bool) (rel : String) (a b : K) : Option Bool :=
-  match rel with
-  | "lt" => some (lt a b)
-  | "le" => some (!lt b a)
-  | "gt" => some (lt b a)
-  | "ge" => some (!lt a b)
-  | _ => none
+def ordRel? : String → Option OrdRel
+  | "lt" => some .lt | "le" => some .le | "gt" => some .gt | "ge" => some .ge | _ => none
 
 def handleVec (F : Codec K) (op : String) (toks : List String) : String :=
   let two := twoVecOps.contains op
@@ -397,6 +401,7 @@ def handleVec (F : Codec K) (op : String) (toks : List String) : String :=
     if !t3.isEmpty then "bad-op" else
     let n := a.n
     let x := vecFn a.e
+    let xv : Vec K := ⟨n, x⟩
     let out (f : Nat → K) : String := encList F (listOf n f)
     match b? with
     | some b =>
@@ -405,24 +410,27 @@ def handleVec (F : Codec K) (op : String) (toks : List String) : String :=
       if a.kind == "SC" then
         (if b.kind != "SC" then "bad-op" else
          match op with
-         | "fdot" => encList F [vdot F.conj 1 x y]
-         | "fdotT" => encList F [vdotT 1 x y]
+         -- free functions on plain scalars (dotproduct.hh)
+         | "fdot" => encList F [scalarDot (if F.cplx then Gen.scalarDotComplex else Gen.scalarDotReal) F.conj (x 0) (y 0)]
+         | "fdotT" => encList F [x 0 * y 0]
          | _ => "bad-op")
       else if b.kind == "SC" then "bad-op" else
       match op with
-      | "vadd" | "vplus" => out (vadd x y)
-      | "vsub" | "vminus" => out (vsub x y)
-      | "vaxpy" => out (vaxpy x s y)
+      | "vadd" => out (vPlusAssign xv y).get
+      | "vsub" => out (vMinusAssign xv y).get
+      | "vplus" => out (vPlus xv y).get
+      | "vminus" => out (vMinus xv y).get
+      | "vaxpy" => out (vAxpy xv s y).get
       | "veq" => showB (veq n x y)
       | "vne" => showB (!veq n x y)
       | "vdotT" | "fdotT" => encList F [vdotT n x y]
-      | "vdot" | "fdot" => encList F [vdot F.conj n x y]
+      | "vdot" | "fdot" => encList F [vdot F.cplx F.conj n x y]
       | _ =>
         if ordVV.contains op && a.kind == "FV" && b.kind == "FV" && n == 1 then
           match F.lt with
           | some lt =>
-            match ordRel lt ((op.drop 3).take 2).toString (x 0) (y 0) with
-            | some r => showB r
+            match ordRel? ((op.drop 3).take 2).toString with
+            | some r => showB (ordRel lt r (x 0) (y 0))
             | none => "bad-op"
           | none => "bad-op"
         else "bad-op"
@@ -431,18 +439,19 @@ def handleVec (F : Codec K) (op : String) (toks : List String) : String :=
       let fv := a.kind == "FV"
       let one := fv && n == 1
       match op with
-      | "vneg" => out (vneg x)
-      | "vadds" => out (vaddScalar x s)
-      | "vsubs" => out (vsubScalar x s)
-      | "vscale" => out (vscale x s)
-      | "vdiv" => if !allDivOk F a.e s then "inexact" else out (vdiv x s)
+      | "vneg" => out (vNeg xv).get
+      | "vadds" => out (vPlusAssignScalar xv s).get
+      | "vsubs" => out (vMinusAssignScalar xv s).get
+      | "vscale" => out (vTimesAssign xv s).get
+      | "vdiv" => if !allDivOk F a.e s then "inexact" else out (vDivAssign xv s).get
       | "vtimes" => if fv then out (vscale x s) else "bad-op"
       | "vltimes" => if fv then out (vscaleL s x) else "bad-op"
       | "vover" => if !allDivOk F a.e s then "inexact" else if fv then out (vdiv x s) else "bad-op"
-      | "v1_plus_s" => if one then out (vaddScalar x s) else "bad-op"
-      | "s_plus_v1" => if one then out (vadd (fun _ => s) x) else "bad-op"
-      | "v1_minus_s" => if one then out (vsubScalar x s) else "bad-op"
-      | "s_minus_v1" => if one then out (vsub (fun _ => s) x) else "bad-op"
+      -- fvector.hh, FieldVector<K,1> mixed with plain scalars: `a[0]+b`, `a+b[0]`, ...
+      | "v1_plus_s" => if one then out (fun _ => x 0 + s) else "bad-op"
+      | "s_plus_v1" => if one then out (fun _ => s + x 0) else "bad-op"
+      | "v1_minus_s" => if one then out (fun _ => x 0 - s) else "bad-op"
+      | "s_minus_v1" => if one then out (fun _ => s - x 0) else "bad-op"
       | "v1_times_s" => if one then out (vscale x s) else "bad-op"
       | "s_times_v1" => if one then out (vscaleL s x) else "bad-op"
       | "v1_over_s" => if !allDivOk F a.e s then "inexact" else if one then out (vdiv x s) else "bad-op"
@@ -459,8 +468,8 @@ def handleVec (F : Codec K) (op : String) (toks : List String) : String :=
           | some lt =>
             let sFirst := op.startsWith "s_"
             let rel := if sFirst then ((op.drop 2).take 2).toString else ((op.drop 3).take 2).toString
-            match ordRel lt rel (if sFirst then s else x 0) (if sFirst then x 0 else s) with
-            | some r => showB r
+            match ordRel? rel with
+            | some r => showB (ordRel lt r (if sFirst then s else x 0) (if sFirst then x 0 else s))
             | none => "bad-op"
           | none => "bad-op"
         else "bad-op"
@@ -503,8 +512,9 @@ def handleMult (F : Codec K) (op : String) (toks : List String) : String :=
     if A.base == "DM" && (op != "multassign" || x.kind != "DV") then "bad-op" else
     if A.base == "FM" && x.kind != "FV" then "bad-op" else
     let a := storedFull A
-    if tr then encList F (listOf A.c (multAssignT a (vecFn x.e)))
-    else encList F (listOf A.r (multAssign a (vecFn x.e)))
+    -- `ret` is the caller's vector (any content) for multAssign*, a fresh one for mult / multTransposed
+    if tr then encList F (listOf A.c (multAssignT a (vecFn x.e) (zeroVec A.c)).get)
+    else encList F (listOf A.r (multAssign a (vecFn x.e) (zeroVec A.r)).get)
 
 /-- construction / assignment of a FieldMatrix or DynamicMatrix from another representation; of a vector from another -/
 def handleAssign (F : Codec K) (op : String) (toks : List String) : String :=
